@@ -330,6 +330,8 @@ def vec_units(ctx, src):
             rules.append(Rule('(this)', '(self)', count=1))
         rules.append(TIE_RULE)
         kw = {}
+        if nm == 'at':
+            kw['ret_zero'] = '0'      # a bounds check that throws (none in the code as it is) is lowered; the contract demands no exception for dim < N
         if cls == 'Matrix4':
             if nm == 'transposition':
                 rules.append(Rule('Matrix4<T> res;', 'Matrix4 res; Matrix4_ctor(&res);', count=1))
